@@ -698,6 +698,10 @@ func (fa *FuncAnalysis) loadTerm(u *ssa.UnOp) *Term {
 		case *ssa.Alloc:
 			base = fa.mkPath(&Term{Op: "zero", Name: rv.Comment + "@" + strconv.Itoa(fa.ord[rv])}, res.path)
 		case *ssa.Global:
+			if it := fa.e.immutableGlobalInit(rv); it != nil && len(res.path) == 0 {
+				base = it
+				break
+			}
 			base = fa.mkPath(&Term{Op: "global", Name: globalName(rv)}, res.path)
 		default:
 			if fv, isFV := res.rootVal.(*ssa.FreeVar); isFV {
@@ -975,7 +979,6 @@ func reviewedParamName(p *ssa.Parameter) string {
 	return base[idx][0]
 }
 
-
 // librarySynonym gives the one spelling under which the rules see library calls that compute the same thing for every
 // value: a.GT(b) is b.LT(a), a.GTE(b) is b.LTE(a), t.After(u) is u.Before(t) (cosmossdk.io/math and time define them
 // by the same comparison with the operands swapped); Coin.IsZero is Amount.IsZero; Time.IsZero is Equal(time.Time{});
@@ -1006,10 +1009,91 @@ func librarySynonym(key string, args []*Term) (string, []*Term) {
 		if len(args) == 1 {
 			return "time.Time.Equal", []*Term{args[0], {Op: "const", Name: "nil"}}
 		}
+	case "math.LegacyDec.Equal", "math.Int.Equal":
+		// x.Equal(zero) is x.IsZero()
+		if len(args) == 2 {
+			recv := strings.TrimSuffix(key, ".Equal")
+			for i, a := range args {
+				if constName(a) == "0" && a.Op != "const" {
+					return recv + ".IsZero", []*Term{args[1-i]}
+				}
+			}
+		}
 	case "math.Int.ToLegacyDec":
 		if len(args) == 1 {
 			return "math.LegacyNewDecFromInt", args
 		}
 	}
 	return key, args
+}
+
+// immutableGlobalInit: g is a package-level variable of a state-machine package that is written exactly once, by the
+// package initialiser, with the result of a pure call without arguments (`var oneDec = math.LegacyOneDec()`), and is
+// otherwise only read as a whole.  A read of it is then a read of that call: hoisting a constant-like value into a
+// package-level variable changes nothing the rules look at.  (A variable that anything else can write or take the
+// address of stays a global - C19.nomemstate judges those.)
+func (e *Engine) immutableGlobalInit(g *ssa.Global) *Term {
+	if e == nil || g.Pkg == nil || !smPkgs[g.Pkg.Pkg.Path()] {
+		return nil
+	}
+	if e.globalInit == nil {
+		e.globalInit = map[*ssa.Global]*Term{}
+	}
+	if t, ok := e.globalInit[g]; ok {
+		return t
+	}
+	e.globalInit[g] = nil
+	var fns []*ssa.Function
+	if in := g.Pkg.Func("init"); in != nil {
+		fns = append(fns, in)
+	}
+	for _, fn := range e.SrcFuncs {
+		if fn.Pkg == g.Pkg {
+			fns = append(fns, fn)
+		}
+	}
+	var def *ssa.Store
+	var defFn *ssa.Function
+	for _, fn := range fns {
+		for _, b := range fn.Blocks {
+			for _, in := range b.Instrs {
+				uses := false
+				for _, op := range in.Operands(nil) {
+					if op != nil && *op == ssa.Value(g) {
+						uses = true
+					}
+				}
+				if !uses {
+					continue
+				}
+				switch x := in.(type) {
+				case *ssa.UnOp:
+					// a load of the whole value
+				case *ssa.Store:
+					if x.Addr != ssa.Value(g) || def != nil || fn.Name() != "init" || fn.Parent() != nil {
+						return nil
+					}
+					def, defFn = x, fn
+				case *ssa.DebugRef:
+				default:
+					return nil
+				}
+			}
+		}
+	}
+	if def == nil {
+		return nil
+	}
+	c, ok := def.Val.(*ssa.Call)
+	if !ok || len(c.Call.Args) != 0 || c.Call.IsInvoke() {
+		return nil
+	}
+	key := CalleeKey(c.Common())
+	if !isPure(key, c.Common()) {
+		return nil
+	}
+	_ = defFn
+	t := &Term{Op: "call", Name: key}
+	e.globalInit[g] = t
+	return t
 }
